@@ -128,7 +128,7 @@ Definition top_ok (o : op) : Prop :=
   match o with
   | ORecv id | OSend id => 0 <= id
   | OMaxStreams _ n => 0 <= n
-  | OTransportParams nb nu => 0 <= nb /\ 0 <= nu
+  | OTransportParams nb nu _ => 0 <= nb /\ 0 <= nu
   | _ => True
   end.
 
@@ -189,8 +189,8 @@ Proof.
 Qed.
 
 Ltac simp_sm :=
-  cbn [s_client s_maxBidi s_maxUni s_ob s_ou s_ib s_iu s_reset s_zomb s_zacc s_out s_in set_out set_in
-       set_zomb set_zacc set_reset via_out via_in fst snd] in *.
+  cbn [s_client s_maxBidi s_maxUni s_ob s_ou s_ib s_iu s_reset s_zomb s_zacc s_rsa s_rsaIDs s_out s_in set_out set_in
+       set_zomb set_zacc set_reset set_rsa via_out via_in fst snd] in *.
 
 Lemma sm_set_out : forall s uni m, sm_inv s -> out_inv uni (s_client s) m -> sm_inv (set_out s uni m).
 Proof.
@@ -246,11 +246,11 @@ Qed.
 Lemma same_params_refl : forall s, same_params s s.
 Proof. intros; repeat split; reflexivity. Qed.
 
-Lemma tstep_inv : forall s o s' r fr, sm_inv s -> top_ok o -> tstep s o = (s', r, fr) ->
+Lemma tstep_core_inv : forall s o s' r fr, sm_inv s -> top_ok o -> tstep_core s o = (s', r, fr) ->
   sm_inv s' /\ same_params s s'.
 Proof.
   intros s o s' r fr I Hok E.
-  destruct o as [uni|uni w c|uni w|uni w|uni a|uni a|uni a|id|uni n|nb nu|id|id|e| |]; cbn [tstep top_ok] in *.
+  destruct o as [uni|uni w c|uni w|uni w|uni a|uni a|uni a|id|uni n|nb nu rsa|id|id|e| |]; cbn [tstep_core top_ok] in *.
   - destruct (s_reset s); [inj3 E; subst s'; split; [exact I|apply same_params_refl]|].
     eapply via_out_inv; eauto. exact Logic.I.
   - destruct (s_reset s); [inj3 E; subst s'; split; [exact I|apply same_params_refl]|].
@@ -313,6 +313,27 @@ Proof.
     split; apply out_inv_init.
   - inj3 E; subst s'. split; [|repeat split; reflexivity]. destruct I as (H1 & H2 & H3 & H4 & H5 & H6).
     unfold sm_inv, set_reset; simp_sm. repeat split; assumption || apply H3 || apply H4 || apply H5 || apply H6.
+Qed.
+
+Lemma sm_inv_set_rsa : forall s b ids, sm_inv s -> sm_inv (set_rsa s b ids).
+Proof. intros s b ids H. exact H. Qed.
+
+Lemma rsa_update_inv : forall o s r, sm_inv s -> sm_inv (rsa_update o s r) /\ same_params s (rsa_update o s r).
+Proof.
+  intros o s r I. unfold rsa_update.
+  destruct o; try (split; [exact I|apply same_params_refl]);
+    try (destruct r; try (split; [exact I|apply same_params_refl]); destruct (s_rsa s));
+    split; try exact I; try apply same_params_refl; try (apply sm_inv_set_rsa; exact I); repeat split; reflexivity.
+Qed.
+
+Lemma tstep_inv : forall s o s' r fr, sm_inv s -> top_ok o -> tstep s o = (s', r, fr) ->
+  sm_inv s' /\ same_params s s'.
+Proof.
+  intros s o s' r fr I Hok E. unfold tstep in E.
+  destruct (tstep_core s o) as [[s1 r1] fr1] eqn:C. inj3 E. subst r1 fr1 s'.
+  destruct (tstep_core_inv _ _ _ _ _ I Hok C) as [I1 (P1 & P2 & P3)].
+  destruct (rsa_update_inv o s1 r I1) as [I2 (Q1 & Q2 & Q3)].
+  split; [exact I2|]. repeat split; congruence.
 Qed.
 
 Lemma trun_inv : forall ops s s' outs, sm_inv s -> Forall top_ok ops -> trun s ops = (s', outs) ->
@@ -380,4 +401,105 @@ Proof.
   rewrite P1 in *.
   split; [eapply in_facts_inv; eauto using first_incoming_range|]. split; [exact Hui|].
   split; [eapply out_facts_inv; eauto using first_outgoing_range|exact Huo].
+Qed.
+
+(** * RESET_STREAM_AT only with the peer's consent *)
+
+Lemma via_out_rsa : forall s uni x s' r fr, via_out s uni x = (s', r, fr) ->
+  s_rsa s' = s_rsa s /\ s_rsaIDs s' = s_rsaIDs s.
+Proof. intros s uni [[m r0] f0] s' r fr E. cbn in E. inj3 E. subst s'. destruct uni; split; reflexivity. Qed.
+
+Lemma via_in_rsa : forall s uni x s' r fr, via_in s uni x = (s', r, fr) ->
+  s_rsa s' = s_rsa s /\ s_rsaIDs s' = s_rsaIDs s.
+Proof. intros s uni [[m r0] f0] s' r fr E. cbn in E. inj3 E. subst s'. destruct uni; split; reflexivity. Qed.
+
+Lemma tstep_core_rsa : forall s o s' r fr, tstep_core s o = (s', r, fr) ->
+  s_rsa s' = s_rsa s /\ s_rsaIDs s' = s_rsaIDs s.
+Proof.
+  intros s o s' r fr E.
+  destruct o as [uni|uni w c|uni w|uni w|uni a|uni a|uni a|id|uni n|nb nu rsa|id|id|e| |]; cbn [tstep_core] in E.
+  - destruct (s_reset s); [inj3 E; subst s'; split; reflexivity|eapply via_out_rsa; eauto].
+  - destruct (s_reset s); [inj3 E; subst s'; split; reflexivity|eapply via_out_rsa; eauto].
+  - destruct (zmem w (s_zomb s)); [inj3 E; subst s'; split; reflexivity|eapply via_out_rsa; eauto].
+  - destruct (zmem w (s_zomb s)); [inj3 E; subst s'; split; reflexivity|eapply via_out_rsa; eauto].
+  - destruct (s_reset s); [inj3 E; subst s'; split; reflexivity|eapply via_in_rsa; eauto].
+  - destruct (zmem a (s_zacc s)); [inj3 E; subst s'; split; reflexivity|].
+    destruct (zmem a (i_parked (s_in s uni))); [eapply via_in_rsa; eauto|inj3 E; subst s'; split; reflexivity].
+  - destruct (zmem a (s_zacc s)); [inj3 E; subst s'; split; reflexivity|eapply via_in_rsa; eauto].
+  - unfold t_delete in E. destruct (by_self s id); [eapply via_out_rsa; eauto|eapply via_in_rsa; eauto].
+  - eapply via_out_rsa; eauto.
+  - destruct (via_out s false _) as [[s1 x1] f1] eqn:E1. destruct (via_out s1 true _) as [[s2 x2] f2] eqn:E2.
+    inj3 E. subst s'. destruct (via_out_rsa _ _ _ _ _ _ E1) as [A1 A2]. destruct (via_out_rsa _ _ _ _ _ _ E2) as [B1 B2].
+    split; congruence.
+  - unfold t_get_recv in E. destruct (id_is_uni id), (by_self s id);
+      try (inj3 E; subst s'; split; reflexivity); eapply via_in_rsa; eauto.
+  - unfold t_get_send in E. destruct (id_is_uni id), (by_self s id); cbn [negb] in E;
+      try (inj3 E; subst s'; split; reflexivity); eapply via_in_rsa; eauto.
+  - inj3 E; subst s'; split; reflexivity.
+  - inj3 E; subst s'; split; reflexivity.
+  - inj3 E; subst s'; split; reflexivity.
+Qed.
+
+Definition tp_enables (o : op) : bool :=
+  match o with OTransportParams _ _ true => true | _ => false end.
+
+(** some open outgoing stream (or every stream created from now on) would use RESET_STREAM_AT *)
+Definition rsa_used (s : smap) : Prop := s_rsa s = true \/ s_rsaIDs s <> [].
+
+Lemma zremove_nonnil : forall x l, zremove x l <> [] -> l <> [].
+Proof. intros x [|y l] H; [exact H|discriminate]. Qed.
+
+Lemma rsa_open_case : forall s1 r,
+  rsa_used (match r with
+            | RId id => if s_rsa s1 then set_rsa s1 true (zinsert id (s_rsaIDs s1)) else s1
+            | _ => s1 end) -> rsa_used s1.
+Proof.
+  intros s1 r U. destruct r; try exact U. destruct (s_rsa s1) eqn:R; [left; exact R|exact U].
+Qed.
+
+Lemma tstep_rsa : forall s o s' r fr, tstep s o = (s', r, fr) ->
+  rsa_used s' -> rsa_used s \/ tp_enables o = true.
+Proof.
+  intros s o s' r fr E U. unfold tstep in E.
+  destruct (tstep_core s o) as [[s1 r1] fr1] eqn:C. inj3 E. subst r1 fr1 s'.
+  destruct (tstep_core_rsa _ _ _ _ _ C) as [A1 A2].
+  assert (K : rsa_used s1 -> rsa_used s) by (unfold rsa_used; rewrite A1, A2; auto).
+  destruct o as [uni|uni w c|uni w|uni w|uni a|uni a|uni a|id|uni n|nb nu rsa|id|id|e| |];
+    cbn [rsa_update tp_enables] in *; try (left; apply K; exact U).
+  - left. apply K. eapply rsa_open_case; eauto.
+  - left. apply K. eapply rsa_open_case; eauto.
+  - left. apply K. eapply rsa_open_case; eauto.
+  - (* DeleteStream *) left. apply K. unfold rsa_used in *. cbn [set_rsa s_rsa s_rsaIDs] in U.
+    destruct U as [U|U]; [left; exact U|right]. eapply zremove_nonnil; eauto.
+  - (* transport parameters *) destruct rsa; [right; reflexivity|left]. apply K.
+    unfold rsa_used in *. cbn [set_rsa s_rsa s_rsaIDs] in U. destruct U as [U|U]; [discriminate|right; exact U].
+  - (* ResetFor0RTT *) left. apply K. unfold rsa_used in *. cbn [set_rsa s_rsa s_rsaIDs] in U.
+    destruct U as [U|U]; [left; exact U|congruence].
+Qed.
+
+Lemma trun_rsa : forall ops s s' outs, trun s ops = (s', outs) ->
+  rsa_used s' -> rsa_used s \/ existsb tp_enables ops = true.
+Proof.
+  induction ops as [|o ops IH]; intros s s' outs E U; cbn [trun] in E.
+  - injection E as <- _. left. exact U.
+  - destruct (tstep s o) as [[s1 x] f1] eqn:S1. destruct (trun s1 ops) as [s2 outs2] eqn:R.
+    injection E as <- _. cbn [existsb].
+    destruct (IH _ _ _ R U) as [U1|U1]; [|right; rewrite U1; apply orb_true_r].
+    destruct (tstep_rsa _ _ _ _ _ S1 U1) as [U0|U0]; [left; exact U0|right; rewrite U0; reflexivity].
+Qed.
+
+(** no stream of ours uses RESET_STREAM_AT unless some transport parameters carried reset_stream_at *)
+Theorem sm_rsa_needs_consent : forall client mb mu ops s outs,
+  trun (init_sm client mb mu) ops = (s, outs) -> rsa_used s -> existsb tp_enables ops = true.
+Proof.
+  intros client mb mu ops s outs E U. destruct (trun_rsa _ _ _ _ E U) as [[H|H]|H]; [cbn in H; discriminate|cbn in H; congruence|exact H].
+Qed.
+
+(** transport parameters without reset_stream_at switch the extension on for no open stream *)
+Theorem sm_tp_without_rsa : forall s nb nu s' r fr,
+  tstep s (OTransportParams nb nu false) = (s', r, fr) -> s_rsa s' = false /\ s_rsaIDs s' = s_rsaIDs s.
+Proof.
+  intros s nb nu s' r fr E. unfold tstep in E.
+  destruct (tstep_core s (OTransportParams nb nu false)) as [[s1 r1] fr1] eqn:C. inj3 E. subst s'.
+  destruct (tstep_core_rsa _ _ _ _ _ C) as [A1 A2]. cbn. split; [reflexivity|exact A2].
 Qed.
